@@ -21,7 +21,8 @@ CLAIM = {
             "invention or reordering), delivered only to the connected output; its payload (3 symbolic octets) is unchanged but for the "
             "documented transformation (skip: configured prefix removed; htons: 16-bit words swapped); whatever is not forwarded is freed "
             "by the pipe (CBMC memory-leak check on every query) and nothing is freed twice or used after free (CBMC pointer checks).",
-    "note": "Trusted: as C04. Bounds: up to 4 buffers per history, histories of 5-6 operations, single-segment 3-octet buffers. "
+    "note": "Trusted: as C04. Bounds: up to 4 buffers per history, histories of 5-6 operations, 3-octet buffers (single-segment, and two-segment ones for "
+            "idem / skip / htons [+ setattr / probe_uref / delay in the thorough tier]); one-to-one pipes must emit exactly one output per input whenever a connected output accepted the definition. "
             "The duplicating split upipe_dup runs in harness/C05_dup.c (main output + two output sub-pipes created / released in "
             "mid-stream, three sinks): every input reaches every output that exists at that moment, in order, once, payload unchanged, after "
             "the current flow definition. The queue sink is covered by C06. Not covered: chains of several pipes, "
@@ -54,6 +55,11 @@ def build(tier):
         for i, ops in enumerate(sq):
             qs.append(ps.query("C05", pipe, ops, timeout=280 if quick else 900, sample=(i % 40 == 7), replay=(i % 50 == 7),
                                witness_delivered=0))
+    # segmented payloads (two chained segments) through the payload transformers and a pass-through pipe
+    segplan = [(7, 2), (7, 1), (2, 1), (2, 2), (1, 2)] if quick else [(p, sg) for p in (1, 2, 3, 5, 6, 7) for sg in (1, 2)]
+    for pipe, sg in segplan:
+        for ops in ([[0, 3, 6, 6], [0, 3, 6, 4, 6]] if quick else [[0, 3] + t for t in ps.seqs([6, 4, 5, 7], 3, last=(6,), min_count={6: 2})]):
+            qs.append(ps.query("C05", pipe, ops, timeout=280 if quick else 900, witness_delivered=2 if ops == [0, 3, 6, 6] else 0, segmented=sg))
     # the duplicating split upipe_dup: outputs added / removed in mid-stream, main output set / removed, definition changed
     if quick:
         dq = [[0, 3, 2] + t for t in ps.seqs([1, 2, 4, 5, 7, 8], 3, last=(2,))][::2] + \
@@ -72,5 +78,5 @@ def build(tier):
             "assumptions": ps.COMMON_ASSUME + ["buffers dropped because no accepting output is connected are not 'lost' (documented behaviour of the output helper); "
                                                "they must be freed (leak check) and may not be delivered later"],
             "outside": ["split pipes other than upipe_dup", "chains of pipes",
-                        "segmented payloads"]}
+                        "payloads of more than two segments"]}
     return qs, meta
